@@ -23,12 +23,17 @@ def parseAction (t : String) : Option Action :=
   | ["unwatch", tg] => some (.unwatch tg)
   | ["become", sid] => sid.toNat?.map .become
   | ["unbecome"] => some .unbecome
+  | ["sub", ty] => ty.toNat?.map .sub
+  | ["unsub", ty] => ty.toNat?.map .unsub
+  | ["unsuball"] => some .unsubAll
+  | ["pub", ty] => ty.toNat?.map .pub
   | _ => none
 
 def parseTrigger (t : String) : Option Nat :=
   if t = "launch" then some 0 else if t = "kill" then some 1 else if t = "killed" then some 2
   else if t = "okilled" then some 3
-  else if t.startsWith "u" then (t.drop 1).toString.toNat?.map (· + 100) else none
+  else if t.startsWith "u" then (t.drop 1).toString.toNat?.map (· + 100)
+  else if t.startsWith "e" then (t.drop 1).toString.toNat?.map (· + 200) else none
 
 def parseRule (t : String) : Option Rule :=
   match t.splitOn ":" with
@@ -67,7 +72,8 @@ def digest (s : Sys) : String :=
   let ctxs := (List.range s.n).map (showCtx s)
   let reg := sortBy (· ≤ ·) (s.registry.map (·.1))
   let ev := if s.log.isEmpty then "-" else joinWith "," s.log
-  s!"ev={ev} | {joinWith " " ctxs} | reg[{joinWith "," reg}] dl[{showIds s.deadLetters}]"
+  let subs := sortBy (· ≤ ·) (s.subs.map (fun e => s!"{e.1}@{e.2.1}"))
+  s!"ev={ev} | {joinWith " " ctxs} | reg[{joinWith "," reg}] dl[{showIds s.deadLetters}] subs[{joinWith "," subs}]"
 
 def finish (s : Sys) : Sys × String := ({ s with log := [] }, digest s)
 
